@@ -120,6 +120,29 @@ func TestC11(t *testing.T) {
 		}
 		t.Logf("variant %-60s %d compilations %.2fs", v.key(), n, time.Since(t0).Seconds())
 	}
+	// (1b) the same circuit VALUE compiled again and again (state cached inside the circuit's own
+	// elements must not leak from one compilation into the next)
+	for _, v := range vs {
+		persistent := v.e.newCirc()
+		n := 3
+		if v.e.heavy {
+			n = 2
+		}
+		for i := 0; i < n; i++ {
+			var nb frontend.NewBuilder = r1cs.NewBuilder
+			if v.builder == "scs" {
+				nb = scs.NewBuilder
+			}
+			ccs, err := frontend.Compile(v.e.field.ScalarField(), nb, persistent, v.e.opts...)
+			r.Count("compilations.same-circuit-value", 1)
+			if err != nil {
+				continue
+			}
+			var b bytes.Buffer
+			ccs.WriteTo(&b)
+			d.add(v.key(), b.Bytes())
+		}
+	}
 	// (2) history: compile -> other circuits -> compile again (interleaved order)
 	for round := 0; round < r.Pick(2, 6); round++ {
 		for _, v := range vs {
@@ -134,7 +157,7 @@ func TestC11(t *testing.T) {
 		var wg sync.WaitGroup
 		for _, v := range vs {
 			for k := 0; k < 2; k++ {
-				if v.e.heavy && (round > 0 || r.Quick()) {
+				if v.e.heavy && round > 0 {
 					continue
 				}
 				wg.Add(1)
